@@ -72,7 +72,38 @@ func summarize(i table.VerifPitCsInfo) map[string]int {
 }
 
 func (fr *fwRun) c08After(st *fwStep) {
-	fr.c08Invariant(fmt.Sprintf("after step %d (%s)", len(fr.hist), st.Kind))
+	if !fr.c08Invariant(fmt.Sprintf("after step %d (%s)", len(fr.hist), st.Kind)) {
+		return
+	}
+	if st.Kind == "reap" {
+		fr.c08Reclaimed()
+	}
+}
+
+// c08Reclaimed: right after a maintenance pass every PIT entry still in the table must be one the
+// model considers possibly pending (some in-record not surely expired). An entry whose Interests were
+// all satisfied (or answered from the cache) has no in-record left and must be gone - "promptly once
+// satisfied", not only when its original lifetime ends.
+func (fr *fwRun) c08Reclaimed() {
+	info := table.VerifPitCsStats(fwfw.VerifPitCs(fr.sim.T))
+	alive := map[string]int{}
+	for _, e := range fr.m.entries {
+		if len(e.in) > 0 {
+			alive[nkey(e.name)]++
+		}
+	}
+	real := map[string]int{}
+	for _, n := range info.PitEntryNames {
+		real[nkey(n)]++
+	}
+	fr.c.Count("reclaim_checks_after_maintenance", 1)
+	for k, cnt := range real {
+		if cnt > alive[k] {
+			fr.fail("C08", "C08:satisfied-or-expired-pit-entry-survives-maintenance", fmt.Sprintf("after a maintenance pass the PIT holds %d entr(ies) named %s; at most %d can still be pending (the others were satisfied or have expired)", cnt, k, alive[k]),
+				map[string]any{"pit_entries": fmt.Sprint(info.PitEntryNames), "model_pending": fr.pendingDesc()})
+			return
+		}
+	}
 }
 
 // c08Final: bounded liveness at quiescence.
